@@ -127,7 +127,8 @@ pub async fn render_to_string_await_suspense(f: impl FnOnce() -> View) -> String
                     create_effect(move || {
                         if !use_is_loading_global() {
                             if let Some(tx) = tx.take() {
-                                tx.send(()).ok().unwrap();
+                                // The render future may have been dropped in the meantime.
+                                let _ = tx.send(());
                             }
                         }
                     });
@@ -244,7 +245,10 @@ pub fn render_to_string_stream(
                 let mut pending_futures = futures.take();
                 sycamore_futures::spawn_local_scoped(async move {
                     while let Some(fragment) = pending_futures.next().await {
-                        tx.send(fragment).await.unwrap();
+                        // The consumer may have dropped the stream (e.g. the client went away).
+                        if tx.send(fragment).await.is_err() {
+                            break;
+                        }
 
                         // There can be more futures now. Add them to pending_futures.
                         pending_futures.extend(futures.take());
